@@ -762,7 +762,7 @@ class EngineWorld:
             if k < 0 or c < k:
                 self.fail_counts[key] = c + 1
                 self.fault("step-failure")
-                raise EV.EXCS[exc](f"{name}/{in_uid}/f{c}")
+                raise EV.make_exc(exc, f"{name}/{in_uid}/f{c}")
         elif op == "failseq":
             _, excs, k = act
             key = (name, _hashable(in_uid))
@@ -770,7 +770,7 @@ class EngineWorld:
             if k < 0 or c < k:
                 self.fail_counts[key] = c + 1
                 self.fault("step-failure")
-                raise EV.EXCS[excs[c % len(excs)]](f"{name}/{in_uid}/f{c}")
+                raise EV.make_exc(excs[c % len(excs)], f"{name}/{in_uid}/f{c}")
         elif op == "failsel":
             # like failseq, but only deliveries whose fan-out index (last character of the path) is selected fail
             _, excs, k, sel = act
@@ -781,14 +781,14 @@ class EngineWorld:
                 if k < 0 or c < k:
                     self.fail_counts[key] = c + 1
                     self.fault("step-failure")
-                    raise EV.EXCS[excs[c % len(excs)]](f"{name}/{in_uid}/f{c}")
+                    raise EV.make_exc(excs[c % len(excs)], f"{name}/{in_uid}/f{c}")
         elif op == "failpath":
             # deterministic under re-execution: depends only on the engine's attempt number
             _, exc, k = act
             rn = ctx.retry_info().retry_number
             if k < 0 or rn < k:
                 self.fault("step-failure")
-                raise EV.EXCS[exc](f"{name}/{getattr(ev, 'path', '')}/a{rn}")
+                raise EV.make_exc(exc, f"{name}/{getattr(ev, 'path', '')}/a{rn}")
         elif op == "psend":
             _, tname, cnt = act
             for i in range(cnt):
